@@ -142,6 +142,11 @@ def _wait(fs, timeout=None, return_when=cf.ALL_COMPLETED):
     if R is None:
         return _real_wait(fs, timeout, return_when)
     fs = set(fs)
+    if timeout is not None:
+        # tawazi passes no timeout; if a wait can time out, the adversarial environment lets it expire
+        # with nothing finished (the in-flight nodes simply keep running)
+        R.ev("wait", "conc", return_when, tuple(sorted(t.id for t in R.tickets if t.handle in fs)), (), "timeout")
+        return _real_wait(fs, 0, return_when)
     chosen = _choose(R, fs, return_when)
     R.ev("wait", "conc", return_when,
          tuple(sorted(t.id for t in R.tickets if t.handle in fs)), tuple(sorted(t.id for t in chosen)))
@@ -157,6 +162,10 @@ async def _await(fs, *, timeout=None, return_when=asyncio.ALL_COMPLETED):
     if R is None:
         return await _real_await(fs, timeout=timeout, return_when=return_when)
     fs = set(fs)
+    if timeout is not None:
+        R.ev("wait", "async", return_when, tuple(sorted(t.id for t in R.tickets if t.handle in fs)), (), "timeout")
+        await asyncio.sleep(0)
+        return await _real_await(fs, timeout=0, return_when=return_when)
     chosen = _choose(R, fs, return_when)
     R.ev("wait", "async", return_when,
          tuple(sorted(t.id for t in R.tickets if t.handle in fs)), tuple(sorted(t.id for t in chosen)))
